@@ -291,7 +291,7 @@ is answered with the instance built for the old parameters. -/
 theorem setter_without_clear_counterexample :
     let e : Elem := ⟨true, true, 11, fun _ _ g => some g, fun _ _ g => some g⟩
     let s1 := (step e (St.init 0) (.req (some 1) none (some 5))).1
-    (step e s1.setParamNoClear (.req (some 1) none (some 5))).2 = .inst ⟨some 1, some 1, some 5⟩ 0 ∧
+    (step e (Mutant.setParamNoClear s1) (.req (some 1) none (some 5))).2 = .inst ⟨some 1, some 1, some 5⟩ 0 ∧
     (step e (St.init 1) (.req (some 1) none (some 5))).2 = .inst ⟨some 1, some 1, some 5⟩ 1 := by
   decide
 
@@ -460,8 +460,8 @@ theorem memo_history_transparent {τ α} [DecidableEq τ] (compute : τ → α) 
 /-- The mutant "matrices not rebuilt on dtype change" is not transparent. -/
 theorem memo_stale_counterexample :
     let compute : Bool → Nat := fun b => if b then 64 else 128
-    let m1 := (Memo.getStale compute ⟨none⟩ true).1
-    (Memo.getStale compute m1 false).2 = 64 ∧ compute false = 128 := by decide
+    let m1 := (Mutant.memoGetStale compute ⟨none⟩ true).1
+    (Mutant.memoGetStale compute m1 false).2 = 64 ∧ compute false = 128 := by decide
 
 /-- **Scratch buffers are transparent** (`FastFourierTransform.internal_array`,
 `FourierFilter.internal_array`): what `forward`/`backward` hand to the FFT — `Fft.loadArray`, the very
@@ -518,28 +518,6 @@ theorem zoom_call_transparent {α} (compute : Nat → α) (z : Zoom α) (hz : Zo
   obtain ⟨h3, _⟩ := key Zoom.fresh ⟨hnone, hnone⟩
   exact ⟨h1, h1.trans h3.symm, h2⟩
 
-/-! ### Objects with hidden state, generically -/
-
-/-- Calls on one shared object, threading its hidden state. -/
-def runObj {σ X Y : Type} (call : σ → X → σ × Y) : σ → List X → List Y
-  | _, [] => []
-  | s, x :: xs => (call s x).2 :: runObj call (call s x).1 xs
-
-/-- **History independence of an object with hidden state**: if some invariant `Ok` holds for a fresh
-object, is kept by every call, and under it a call answers what a fresh object answers, then every
-history is answered call by call as by fresh objects.  Instances: memo cells
-(`memo_get_transparent`), the zoom FFT (`zoom_history_transparent`), the scratch buffer. -/
-theorem hidden_state_history_transparent {σ X Y : Type} (call : σ → X → σ × Y) (Ok : σ → Prop)
-    (fresh : σ) (h : ∀ s x, Ok s → Ok (call s x).1 ∧ (call s x).2 = (call fresh x).2) (xs : List X) :
-    ∀ s, Ok s → runObj call s xs = xs.map (fun x => (call fresh x).2) := by
-  induction xs with
-  | nil => intro s _; rfl
-  | cons x xs ih =>
-    intro s hs
-    obtain ⟨h1, h2⟩ := h s x hs
-    simp only [runObj, List.map_cons]
-    rw [h2, ih _ h1]
-
 /-- Histories of zoom-FFT calls (alternating directions and precisions). -/
 theorem zoom_history_transparent {α} (compute : Nat → α) (calls : List (Bool × Nat)) :
     runObj (fun (z : Zoom α) (c : Bool × Nat) => z.call compute c.1 c.2) Zoom.fresh calls
@@ -568,15 +546,23 @@ example : ObservablyPure (⟨fun k ver => (k, ver), fun a (wf : Nat) => (a, (a, 
     Content (Key × Nat) Nat ((Key × Nat) × Nat)) (fun k ver a => a = (k, ver)) :=
   ⟨fun _ _ => rfl, fun k ver a wf h => by subst h; exact ⟨rfl, rfl⟩⟩
 
-/-- Memo cells plug in: an instance whose content is a memo cell (MFT matrices, filter transfer
-function, chirp-z kernels) used through `Memo.get` is observably pure, with `MemoOk` as invariant. -/
-theorem memo_content_observably_pure {τ β} [DecidableEq τ] (compute : Key → Nat → τ → β) :
-    ∀ k ver (m : Memo τ β) (t : τ), MemoOk (compute k ver) m →
-      MemoOk (compute k ver) (m.get (compute k ver) t).1 ∧
-      (m.get (compute k ver) t).2 = ((⟨none⟩ : Memo τ β).get (compute k ver) t).2 := by
-  intro k ver m t hm
-  obtain ⟨h1, h2⟩ := memo_get_transparent (compute k ver) m hm t
-  exact ⟨h2, h1⟩
+/-- Invariant of the content of an instance that owns a memo cell (`memoContent`): it belongs to the
+instance `(k, ver)` and its cell is well formed. -/
+def MemoContentOk {τ β : Type} (compute : Key → Nat → τ → β) (k : Key) (ver : Nat)
+    (a : Key × Nat × Memo τ β) : Prop :=
+  a.1 = k ∧ a.2.1 = ver ∧ MemoOk (compute k ver) a.2.2
+
+/-- **Bridge: memo cells discharge `ObservablyPure`.**  The content the driver op `reqc` executes
+(`memoContent`: an instance owning a `FourierFilter`-like cell read through `Memo.get`) is observably
+pure, with `MemoContentOk` as invariant. -/
+theorem memo_content_pure {τ β : Type} [DecidableEq τ] (compute : Key → Nat → τ → β) :
+    ObservablyPure (memoContent compute) (MemoContentOk compute) := by
+  refine ⟨fun k ver => ⟨rfl, rfl, fun t v h => by cases h⟩, ?_⟩
+  rintro k ver ⟨k', ver', m⟩ t ⟨rfl, rfl, hm⟩
+  obtain ⟨h1, h2⟩ := memo_get_transparent (compute k' ver') m hm t
+  refine ⟨⟨rfl, rfl, h2⟩, ?_⟩
+  show (m.get (compute k' ver') t).2 = ((⟨none⟩ : Memo τ β).get (compute k' ver') t).2
+  rw [h1]; rfl
 
 theorem stepC_state {α W R} (e : Elem) (c : Content α W R) (s : St) (heap : Inst → α) (op : OpC W) :
     (stepC e c s heap op).1 = (step e s (match op with
@@ -649,6 +635,17 @@ theorem transparent_results {α W R} {e : Elem} (hT : Truthful e) (hmax : 1 ≤ 
     (ops : List (OpC W)) :
     runC e c (St.init ver) c.heap0 ops = specC e c ver ops :=
   transparent_results_from hT hmax c Good hc ops _ _ (inv_init e ver) (fun v => hc.1 v.key v.ver)
+
+/-- **Transparency with results for instances that own a memo cell — no hypothesis on contents.**
+The cache composed with the memo-cell content (exactly what `C05 reqc` runs): every history of
+propagations with fields of any dtypes, `clear_cache()` and setters returns, request by request, the
+kernel a freshly constructed element computes for that request, whatever dtype the cell of a reused
+instance was left with. -/
+theorem transparent_results_memo {τ β : Type} [DecidableEq τ] {e : Elem} (hT : Truthful e)
+    (hmax : 1 ≤ e.maxN) (compute : Key → Nat → τ → β) (ver : Nat) (ops : List (OpC τ)) :
+    runC e (memoContent compute) (St.init ver) (memoContent compute).heap0 ops
+      = specC e (memoContent compute) ver ops :=
+  transparent_results hT hmax _ _ (memo_content_pure compute) ver ops
 
 /-- **`ObservablyPure` is needed**: an instance that keeps state it does not re-check (a memo cell
 without tag comparison: it answers every later wavefront with the value of the first) makes the very
